@@ -57,6 +57,20 @@ theorem scan_conserves {σ : Type} (o : σ → List Cell → Nat × Bool × σ) 
   · rw [hs] at h; cases h
   · rw [h1] at h; cases h; exact h3
 
+/-- `line_width`: every emitted line, ignoring trailing whitespace, is at most `width` columns wide,
+unless it consists of a single grapheme wider than the line.  Holds for every oracle (no
+hypothesis at all) and every width; true of the code since the F44 and F45 fixes. -/
+theorem line_width {σ : Type} (o : σ → List Cell → Nat × Bool × σ)
+    (width : Nat) (cells : List Cell) (st0 : σ) (ls : List (List Cell))
+    (h : lines o width cells st0 = .ok ls) : ∀ l ∈ ls, lineWidthOK width l = true :=
+  scanAll_width o width _ cells st0 ls h
+
+/-- `line_width` for a single `Scan`. -/
+theorem scan_line_width {σ : Type} (o : σ → List Cell → Nat × Bool × σ)
+    (width : Nat) (rest : List Cell) (st : σ) (rest' : List Cell) (st' : σ) (tok : List Cell)
+    (h : scan o width rest st = .line rest' st' tok) : lineWidthOK width tok = true :=
+  scan_width o width rest st rest' st' tok h
+
 /-- richtext: the transcribed `firstLineSegment` meets the oracle hypotheses for every pairwise
 line-break function, so the theorems above hold for `richLines` unconditionally. -/
 theorem rich_oracle_ok (lb : Nat → Nat → Bool) : OracleOK (richOracle lb) := richOracle_ok lb
